@@ -434,6 +434,9 @@ class Frame:
             else:
                 target = st.module or ""
             tm = self.repo.modules.get(target)
+            if tm is None and not st.level and st.module:
+                for a in st.names:
+                    p.env[a.asname or a.name] = Sym("ext", text=f"{st.module}.{a.name}")
             if tm is not None:
                 for a in st.names:
                     r = self.repo.resolve_name(tm, a.name)
@@ -445,7 +448,14 @@ class Frame:
                     elif r and r[0] == "var":
                         p.env[local] = self.global_term(r[2], a.name, r[1])
             return [p]
-        if isinstance(st, (ast.Pass, ast.Import, ast.Global, ast.Nonlocal)):
+        if isinstance(st, ast.Import):
+            # function-level ``import x`` / ``import x.y as z``: the local name denotes that module
+            for a in st.names:
+                local = a.asname or a.name.split(".")[0]
+                full = a.name if a.asname else a.name.split(".")[0]
+                p.env[local] = Sym("module", text=full) if full in self.repo.modules else Sym("ext", text=full)
+            return [p]
+        if isinstance(st, (ast.Pass, ast.Global, ast.Nonlocal)):
             return [p]
         if isinstance(st, (ast.FunctionDef, ast.AsyncFunctionDef)):
             p.env[st.name] = Fn("func", (self.cls, self.selfterm, self.selfattrs, self.module), st, frame=dict(p.env))
